@@ -56,6 +56,21 @@ pub(crate) mod verif_c14_fixed {
                  vendor_id: VendorId { vendor_id: kani::any() }, guid_prefix: any_prefix() }
   }
 
+  // ---- independent layout oracle (RTPS 2.5 section 9.4: CDR primitives in the submessage's byte order;
+  // EntityId / GuidPrefix are octet arrays; SequenceNumber = high i32 then low u32) -----------------
+  fn put32(out: &mut [u8], at: usize, v: u32, e: Endianness) {
+    let b = if e == Endianness::LittleEndian { v.to_le_bytes() } else { v.to_be_bytes() };
+    out[at] = b[0]; out[at + 1] = b[1]; out[at + 2] = b[2]; out[at + 3] = b[3];
+  }
+  fn put_eid(out: &mut [u8], at: usize, id: EntityId) {
+    out[at] = id.entity_key[0]; out[at + 1] = id.entity_key[1]; out[at + 2] = id.entity_key[2]; out[at + 3] = u8::from(id.entity_kind);
+  }
+  fn put_sn(out: &mut [u8], at: usize, sn: SequenceNumber, e: Endianness) {
+    let v = i64::from(sn);
+    put32(out, at, (v >> 32) as u32, e);
+    put32(out, at + 4, v as u32, e);
+  }
+
   // ---- the three obligations, generic over the submessage type -------------------------------
   /// rt + len: returns the bytes
   pub fn roundtrip<T>(x: &T, e: Endianness, announced_len: usize) -> Vec<u8>
@@ -96,7 +111,13 @@ pub(crate) mod verif_c14_fixed {
       match &s.body { SubmessageBody::Writer(WriterSubmessage::Heartbeat(b, f)) => assert!(*b == hb && *f == flags), _ => assert!(false) }
     }
     assert!(announced == 28);
-    roundtrip(&hb, e, announced);
+    let bytes = roundtrip(&hb, e, announced);
+    // wire layout another implementation expects (RTPS 9.4.5.7)
+    let mut want = [0u8; 28];
+    put_eid(&mut want, 0, hb.reader_id); put_eid(&mut want, 4, hb.writer_id);
+    put_sn(&mut want, 8, hb.first_sn, e); put_sn(&mut want, 16, hb.last_sn, e);
+    put32(&mut want, 24, hb.count as u32, e);
+    assert!(bytes[..] == want[..], "c14.rt: HEARTBEAT wire layout");
   }
   #[kani::proof]
   #[kani::unwind(34)]
@@ -105,7 +126,17 @@ pub(crate) mod verif_c14_fixed {
   // ---- HEARTBEAT_FRAG (9.4.5.8: 4+4+8+4+4 = 24); the crate has no length function for it ------
   #[kani::proof]
   #[kani::unwind(30)]
-  fn c14_rt_hbfrag() { roundtrip(&any_heartbeat_frag(), any_endianness(), 24); }
+  fn c14_rt_hbfrag() {
+    let h = any_heartbeat_frag();
+    let e = any_endianness();
+    let bytes = roundtrip(&h, e, 24);
+    let mut want = [0u8; 24];
+    put_eid(&mut want, 0, h.reader_id); put_eid(&mut want, 4, h.writer_id);
+    put_sn(&mut want, 8, h.writer_sn, e);
+    put32(&mut want, 16, u32::from(h.last_fragment_num), e);
+    put32(&mut want, 20, h.count as u32, e);
+    assert!(bytes[..] == want[..], "c14.rt: HEARTBEAT_FRAG wire layout");
+  }
   #[kani::proof]
   #[kani::unwind(30)]
   fn c14_canon_hbfrag() { canonical::<HeartbeatFrag, 24>(any_endianness()); }
